@@ -43,3 +43,25 @@ fn load_and_delete_follow_expiry_and_grace() {
     let v = MDBShardFile::load_all_valid(dir.path()).unwrap();
     assert_eq!(v.len(), 2, "C18 violated: after cleaning, the two unexpired shards are loaded");
 }
+
+/// The validity of an export counts from the export, not from the age of the shard file it was made from.
+#[test]
+fn export_of_an_old_shard_file_is_valid_for_the_requested_time() {
+    let src = tempfile::tempdir().unwrap();
+    let dir = tempfile::tempdir().unwrap();
+    let p0 = gen_random_shard(21, &[3], &[2], false, false).unwrap().write_to_directory(src.path()).unwrap();
+    // a copy under a fresh directory (shard handles are cached per path), made two days old
+    let old_dir = tempfile::tempdir().unwrap();
+    let p = old_dir.path().join(p0.file_name().unwrap());
+    std::fs::copy(&p0, &p).unwrap();
+    let old = std::time::SystemTime::now() - Duration::from_secs(2 * 24 * 3600);
+    std::fs::File::options().write(true).open(&p).unwrap().set_modified(old).unwrap();
+    let s = MDBShardFile::load_from_file(&p).unwrap();
+    let now = std::time::SystemTime::now().duration_since(std::time::UNIX_EPOCH).unwrap().as_secs();
+    let a = s.export_with_expiration(dir.path(), Duration::from_secs(3600)).unwrap();
+    let b = s.export_as_keyed_shard(dir.path(), rng_hash(9), Duration::from_secs(3600), true, true, true).unwrap();
+    for (what, e) in [("export_with_expiration", a.shard.metadata.shard_key_expiry), ("export_as_keyed_shard", b.shard.metadata.shard_key_expiry)] {
+        assert!(e >= now + 3590 && e <= now + 3700, "C18 violated: {what} of a two days old shard file sets the expiry {} s from now instead of 3600", e as i64 - now as i64);
+    }
+    assert_eq!(MDBShardFile::load_all_valid(dir.path()).unwrap().len(), 2, "C18 violated: freshly exported shards are not loaded as valid");
+}
